@@ -119,6 +119,8 @@ class SyncDaliHatDriver(DaliHatSerialDriver, SyncDALIDriver):
                         while collision_bytes != "":
                             collision_bytes = self.read_line()
                         if resp[0] == "X":
+                            # The interface gave up: there is no answer
+                            resp = None
                             break
                         self.LOG.info(
                             "got conflict (%s) sending %r, sending again", resp, cmd
@@ -130,7 +132,7 @@ class SyncDaliHatDriver(DaliHatSerialDriver, SyncDALIDriver):
 
                     resp = None
                     if resend and not already_resent:
-                        self.conn.write((cmd).encode("ascii"))
+                        self.conn.write(cmd)
                         REPS += 1 + send_twice
                         already_resent = True
                 else:
@@ -146,7 +148,7 @@ class SyncDaliHatDriver(DaliHatSerialDriver, SyncDALIDriver):
                         last_resp = None
                         resend = True
                 if resend and resent_times < 5:
-                    self.conn.write(cmd.encode("ascii"))
+                    self.conn.write(cmd)
                     REPS += 1 + send_twice
                     resent_times += 1
             if command.is_query:
